@@ -4,13 +4,14 @@
 //
 //	real:   two mirrored temporary roots; one local.NewEndpoint used directly,
 //	        one reached through remote.NewEndpoint <-> remote.ServeEndpoint
-//	        over net.Pipe (compression none and deflate); random sequences of
+//	        over a buffered in-memory pipe (compression none and deflate;
+//	        zstandard needs the SSPL build); random sequences of
 //	        external edits, Scan (plain and full), Stage (+ transmission of the
 //	        files), Supply and Transition are applied to both, and the case
 //	        records what both returned plus what crossed the wire (decoded
 //	        from a tap on the pipe).
 //	script: the same client and server code (request loop `serve`, all client
-//	        methods) over an uncompressed pipe, but dispatching to a scripted
+//	        methods) over the same kind of pipe, uncompressed, but dispatching to a scripted
 //	        endpoint whose answers are data (the "abstract local endpoint" of
 //	        the model made concrete); the same script is executed directly as
 //	        the reference. Exhaustive small scopes + random scripts.
@@ -135,7 +136,7 @@ func main() {
 	r := cfg.Rand
 	nReal, nScript := 160, 160
 	if cfg.Thorough() {
-		nReal, nScript = 3000, 6000
+		nReal, nScript = 1200, 1500
 	}
 	if os.Getenv("VERIF_REAL_ONLY") != "" { // development aid: many real cases, nothing else
 		fmt.Sscan(os.Getenv("VERIF_REAL_ONLY"), &nReal)
